@@ -30,19 +30,27 @@ def Spec.init : Spec :=
 def Spec.enact (p : Spec) (tag last : Nat) : Spec :=
   { p with setId := p.setId + 1, auths := p.auths ++ [tag], starts := p.starts ++ [last] }
 
-/-- fork-tree `import`: below the deepest node whose block is a strict ancestor, else a new root -/
-def specImportKids (t : Tree) (pc : Ann) : List Node → Option (List Node)
-  | [] => none
-  | .mk c kids :: rest =>
+mutual
+/-- fork-tree `import` at one node: below the deepest node whose block is a strict ancestor -/
+def specImportNode (t : Tree) (pc : Ann) : Node → Option Node
+  | .mk c kids =>
     if c.blk ≠ pc.blk ∧ anc t c.blk pc.blk then
       match specImportKids t pc kids with
-      | some kids' => some (.mk c kids' :: rest)
-      | none => some (.mk c (kids ++ [.mk pc []]) :: rest)
-    else
+      | some kids' => some (.mk c kids')
+      | none => some (.mk c (kids ++ [.mk pc []]))
+    else none
+def specImportKids (t : Tree) (pc : Ann) : List Node → Option (List Node)
+  | [] => none
+  | n :: rest =>
+    match specImportNode t pc n with
+    | some n' => some (n' :: rest)
+    | none =>
       match specImportKids t pc rest with
-      | some rest' => some (.mk c kids :: rest')
+      | some rest' => some (n :: rest')
       | none => none
+end
 
+/-- fork-tree `import`: below the deepest node whose block is a strict ancestor, else a new root -/
 def specImportStd (t : Tree) (pc : Ann) (roots : List Node) : List Node :=
   match specImportKids t pc roots with
   | some r => r
@@ -65,30 +73,30 @@ def malformed (t : Tree) (b : Nat) : Bool :=
   decide ((ds.filter (·.forced)).length > 1) || decide ((ds.filter (fun d => !d.forced)).length > 1)
 
 /-- `add_pending_change`: a forced change is refused when another one is pending on the same fork -/
-def Spec.addChange (t : Tree) (p : Spec) (b : Nat) : Except String Spec :=
+def Spec.addChange (t : Tree) (p : Spec) (b : Nat) : Except Res Spec :=
   match signalled t b with
   | none => .ok p
   | some c =>
     if c.forced then
-      if p.forced.any (fun f => anc t f.blk b) then .error "e-digest:already"
+      if p.forced.any (fun f => anc t f.blk b) then .error (.eDigest .already)
       else .ok { p with forced := p.forced ++ [c] }
     else .ok { p with std := specImportStd t c p.std }
 
 /-- `apply_forced_changes` at the imported block `b` (`p` = state before the block, `p1` = with its change) -/
-def Spec.enactForced (t : Tree) (p p1 : Spec) (b : Nat) : Spec × String :=
+def Spec.enactForced (t : Tree) (p p1 : Spec) (b : Nat) : Spec × Res :=
   match p1.forced.find? (fun f => anc t f.blk b && decide (eff t f = num t b)) with
-  | none => ({ p1 with known := p1.known ++ [b] }, "ok")
+  | none => ({ p1 with known := p1.known ++ [b] }, .ok)
   | some f =>
-    if p1.std.any (fun r => decide (eff t r.ann ≤ f.best) && anc t r.ann.blk f.blk) then (p, "e-forced:pending")
+    if p1.std.any (fun r => decide (eff t r.ann ≤ f.best) && anc t r.ann.blk f.blk) then (p, .eForced .pending)
     else
       let p2 := p1.enact f.tag f.best
-      ({ p2 with std := [], forced := [], known := p1.known ++ [b] }, "ok")
+      ({ p2 with std := [], forced := [], known := p1.known ++ [b] }, .ok)
 
 /-- `imp b`.  A block is accepted when its parent is accepted and not below the finalised block.
     A block whose forced change would be the second one pending on its fork, or that enacts a forced change
     depending on a pending standard change, is rejected as a whole (nothing changes). -/
-def Spec.importBlock (t : Tree) (p : Spec) (b : Nat) : Spec × String :=
-  if !(p.known.contains (par t b) && anc t p.fin (par t b)) then (p, "e-parent")
+def Spec.importBlock (t : Tree) (p : Spec) (b : Nat) : Spec × Res :=
+  if !(p.known.contains (par t b) && anc t p.fin (par t b)) then (p, .eParent)
   else
     match p.addChange t b with
     | .error e => (p, e)
@@ -102,8 +110,8 @@ def Spec.importBlock (t : Tree) (p : Spec) (b : Nat) : Spec × String :=
     Choice: pending changes on forks that the finalisation abandons are discarded at every finalisation, and
     a pending forced change stays pending exactly while its announcing block is the finalised block or
     descends from it. -/
-def Spec.finalise (t : Tree) (p : Spec) (b : Nat) : Spec × String :=
-  if !(p.known.contains b && anc t p.fin b) then (p, "e-fin")
+def Spec.finalise (t : Tree) (p : Spec) (b : Nat) : Spec × Res :=
+  if !(p.known.contains b && anc t p.fin b) then (p, .eFin)
   else
     let n := num t b
     let p0 := { p with fin := b, known := p.known.filter (cmp t b),
@@ -112,12 +120,12 @@ def Spec.finalise (t : Tree) (p : Spec) (b : Nat) : Spec × String :=
     match p.std.find? (fun r => decide (eff t r.ann ≤ n) && anc t r.ann.blk b) with
     | some r =>
       if r.kids.any (fun k => decide (num t k.ann.blk ≤ n) && anc t k.ann.blk b) then
-        (p0, "ok+e-sched:unfin")
+        (p0, .okSched .unfin)
       else
-        ({ p0 with std := r.kids.filter (fun k => cmp t b k.ann.blk) }.enact r.ann.tag n, "ok")
-    | none => (p0, "ok")
+        ({ p0 with std := r.kids.filter (fun k => cmp t b k.ann.blk) }.enact r.ann.tag n, .ok)
+    | none => (p0, .ok)
 
-def Spec.step (t : Tree) (p : Spec) : Op → Spec × String
+def Spec.step (t : Tree) (p : Spec) : Op → Spec × Res
   | .imp b => p.importBlock t b
   | .fin b => p.finalise t b
 
